@@ -45,13 +45,13 @@ type Vocab struct {
 	CoreType   *types.Named
 	CoreField  string // name of the field of the server holding the core
 
-	DBIface   *types.Named
-	DBField   string
-	DBImpls   []types.Type
-	LNIface   *types.Named
-	LNField   string
-	LNImpls   []types.Type
-	PayMeths  map[string]int // lightning pay methods -> index of the maxFee parameter (excluding receiver)
+	DBIface                                                                         *types.Named
+	DBField                                                                         string
+	DBImpls                                                                         []types.Type
+	LNIface                                                                         *types.Named
+	LNField                                                                         string
+	LNImpls                                                                         []types.Type
+	PayMeths                                                                        map[string]int // lightning pay methods -> index of the maxFee parameter (excluding receiver)
 	StatusMeth, InvoiceStatusMeth, CreateInvoiceMeth, FeeReserveMeth, SubscribeMeth string
 
 	Stmts       map[string][]*StmtSite // storage method -> statements (first implementation)
@@ -139,7 +139,7 @@ func (v *Vocab) DBRole(d *CallDesc, role string) bool {
 	return ok && v.HasRole(m, role)
 }
 
-const muxHandleFunc = "github.com/gorilla/mux.(*Router).HandleFunc"
+const muxHandleFunc = "mux.(*Router).HandleFunc"
 
 // BuildVocab extracts the vocabulary.
 func BuildVocab(p *Program) *Vocab {
